@@ -442,6 +442,123 @@ theorem tebd_steps_value {R : Type} [CommSemiring R] (t : List TNode) (hwf : Tre
 
 /-! ### non-vacuity -/
 
+section ValueExamples
+open Ptn.Ein
+
+/-- integer tensors on the two-node network `0 — 1` (one physical leg each), a non-product, non-symmetric gate -/
+def demoTP : Asg VLeg → Int := fun ρ => ρ (.own 0 (.nb 1)) + 2 * ρ (.shared (.phys 0 0)) + 1
+def demoTC : Asg VLeg → Int := fun ρ => ρ (.own 1 (.nb 0)) * ρ (.shared (.phys 1 0)) + 3
+def demoG : Asg VLeg → Int := fun ρ =>
+  ρ (.shared (.gout 0)) + 2 * ρ (.shared (.gin 0)) + 3 * ρ (.shared (.gout 1)) * ρ (.shared (.gin 1)) + 1
+/-- all dimensions two, the new bond of dimension one -/
+def demoDim : VLeg → Nat := fun l => if l = .own 0 .bond then 1 else 2
+def demoGP : List (VLeg × VLeg) := gatePairs [(Leg.phys 0 0, Leg.gin 0), (Leg.phys 1 0, Leg.gin 1)]
+def demoC : Asg VLeg → Int := fun τ =>
+  sumPairs demoDim [(glob 0 (Leg.nb 1), glob 1 (Leg.nb 0))] (fun ρ => demoTP ρ * demoTC ρ) τ
+def demoA : Asg VLeg → Int := fun τ => sumPairs demoDim demoGP (fun ρ => demoG ρ * demoC ρ) τ
+
+/-- what the demo tensors may read: everything but the two new bond legs -/
+def demoS : VLeg → Prop := fun l => l ≠ glob 0 Leg.bond ∧ l ≠ glob 1 Leg.bond
+
+theorem demoTP_dep : DependsOn demoS demoTP := by
+  intro σ τ h
+  simp only [demoTP]
+  rw [h _ ⟨by decide, by decide⟩, h (.shared (.phys 0 0)) ⟨by decide, by decide⟩]
+
+theorem demoTC_dep : DependsOn demoS demoTC := by
+  intro σ τ h
+  simp only [demoTC]
+  rw [h _ ⟨by decide, by decide⟩, h (.shared (.phys 1 0)) ⟨by decide, by decide⟩]
+
+theorem demoG_dep : DependsOn GateReads demoG := by
+  intro σ τ h
+  simp only [demoG]
+  rw [h (.shared (.gout 0)) trivial, h (.shared (.gin 0)) trivial, h (.shared (.gout 1)) trivial,
+    h (.shared (.gin 1)) trivial]
+
+/-- the hypotheses of `two_site_gate_value` (parent named first; `r.binds` is the list below by
+`two_site_gate_binding`) are satisfiable: the pair `0 — 1` with integer tensors, a generic gate, and the exact
+factorisation of the absorbed tensor over a bond of dimension one -/
+example : PairOK 0 1 none [] [] [] ∧
+    (twoSite 0 (mkNode 0 none ([] ++ 1 :: []) 1) 1 (mkNode 1 (some 0) [] 1)).map (fun r => gatePairs r.binds)
+      = some demoGP ∧
+    (Expr.pairLegs ([] : List (VLeg × VLeg))).Nodup ∧
+    (∀ τ, demoC τ = sumPairs demoDim [(glob 0 (Leg.nb 1), glob 1 (Leg.nb 0))] (fun ρ => demoTP ρ * demoTC ρ) τ) ∧
+    (∀ τ, demoA τ = sumPairs demoDim demoGP (fun ρ => demoG ρ * demoC ρ) τ) ∧
+    (∀ τ, demoA τ = sumPairs demoDim [(glob 0 Leg.bond, glob 1 Leg.bond)]
+      (fun ρ => demoA ρ * (fun _ => (1 : Int)) ρ) τ) ∧
+    DependsOn GateReads demoG := by
+  refine ⟨by unfold PairOK; decide, by decide, by simp [Expr.pairLegs], fun _ => rfl, fun _ => rfl, ?_, demoG_dep⟩
+  intro τ
+  have hG : DependsOn demoS demoG := demoG_dep.mono (fun l hl => by
+    cases l with
+    | own n x => exact hl.elim
+    | shared x => exact ⟨by simp [glob], by simp [glob]⟩)
+  exact trivial_split demoDim demoA _ _
+    (dependsOn_contract demoDim demoGP hG (dependsOn_contract demoDim _ demoTP_dep demoTC_dep))
+    (fun h => h.1 rfl) (fun h => h.2 rfl) (by decide) τ
+
+/-- … and the conclusion is not an empty identity: at the output assignment `(1, 0)` both sides are the
+number 224 (the gate applied to the contracted pair). -/
+example : sumPairs demoDim demoGP (fun τ => demoG τ *
+      netValue demoDim ([] ++ [(glob 0 (Leg.nb 1), glob 1 (Leg.nb 0))]) [demoTP, demoTC] τ)
+      (fun l => if l = .shared (.gout 0) then 1 else 0) = 224 := by decide
+
+/-- the hypotheses of `single_site_gate_value`: the gate's input bound to the physical leg of node 0 -/
+example : (singleSite (mkNode 0 none [1] 1)).map (fun r => gatePairs r.2) =
+      some (gatePairs [(Leg.phys 0 0, Leg.gin 0)]) ∧
+    DependsOn GateReads (fun ρ : Asg VLeg => (ρ (.shared (.gout 0)) + 2 * ρ (.shared (.gin 0)) : Int)) := by
+  refine ⟨by decide, ?_⟩
+  intro σ τ h
+  show (σ _ + 2 * σ _ : Int) = τ _ + 2 * τ _
+  rw [h (.shared (.gout 0)) trivial, h (.shared (.gin 0)) trivial]
+
+/-- SWAP on two qutrits: the hypotheses of `swap_gate_value` hold for six distinct labels, and the value at the
+output assignment `(2, 1)` of the vector `ψ[p₀, p₁] = 10·p₀ + p₁` is `ψ[1, 2] = 12` -/
+example : sumPairs (fun _ : Nat => 3) [(0, 2), (1, 3)]
+      (fun τ => swapTensor (R := Int) 3 4 5 2 3 τ * ((10 * τ 0 + τ 1 : Nat) : Int))
+      (fun l => if l = 4 then 2 else if l = 5 then 1 else 0) = 12 := by decide
+
+/-- the invariant of the record holds at the start of a run -/
+example : RecInv GLeg.init [] 0 := recInv_init
+
+/-- step-level demo tensors: the network `0 — 1` in the labels of a whole step -/
+def sT0 : Asg SLeg → Int := fun ρ => ρ (.virt 0 1 0) + 2 * ρ (.ph (.init 0)) + 1
+def sT1 : Asg SLeg → Int := fun ρ => ρ (.virt 1 0 0) * ρ (.ph (.init 1)) + 3
+def sG : Nat → Asg SLeg → Int := fun g ρ =>
+  ρ (.ph (.out g 0)) + 2 * ρ (.gin g 0) + 3 * ρ (.ph (.out g 1)) * ρ (.gin g 1) + 1
+def sDim : SLeg → Nat := fun l => if l = .virt 0 1 1 then 1 else 2
+def sS : SLeg → Prop := fun l => l ≠ .virt 0 1 1 ∧ l ≠ .virt 1 0 1
+
+theorem sG_dep (g : Nat) : DependsOn (GateReadsS g) (sG g) := by
+  intro σ τ h
+  simp only [sG]
+  rw [h (.ph (.out g 0)) rfl, h (.gin g 0) rfl, h (.ph (.out g 1)) rfl, h (.gin g 1) rfl]
+
+/-- a chain of `tebd_step_value` exists: the step `[[0, 1], []]` (a two-site gate on `0 — 1`, then an operator
+that names no site) on integer tensors, with the exact factorisation over a bond of dimension one; every gate
+reads only its own legs -/
+example : (∃ ψ', StepChain sDim sG GLeg.init 0 [[0, 1], []]
+      (netValue sDim ([] ++ [(SLeg.virt 0 1 0, SLeg.virt 1 0 0)]) [sT0, sT1]) ψ') ∧
+    ∀ g, DependsOn (GateReadsS g) (sG g) := by
+  refine ⟨⟨_, StepChain.cons _ _ _ _ _ _ _
+    (OpContract.exists_two sDim (sG 0) _ 0 1 sT0 sT1 _ _ (SLeg.virt 0 1 1) (SLeg.virt 1 0 1)
+      (S := sS) ?_ ?_ ?_ (fun h => h.1 rfl) (fun h => h.2 rfl) (by decide) (sG_dep 0) (by decide))
+    (StepChain.cons _ _ _ _ _ _ _ (OpContract.skip _) (StepChain.nil _ _ _))⟩, sG_dep⟩
+  · intro σ τ h
+    simp only [sT0]
+    rw [h (.virt 0 1 0) ⟨by decide, by decide⟩, h (.ph (.init 0)) ⟨by decide, by decide⟩]
+  · intro σ τ h
+    simp only [sT1]
+    rw [h (.virt 1 0 0) ⟨by decide, by decide⟩, h (.ph (.init 1)) ⟨by decide, by decide⟩]
+  · exact (sG_dep 0).mono (fun l hl => by
+      cases l with
+      | ph x => exact ⟨by simp, by simp⟩
+      | gin a b => exact ⟨by simp, by simp⟩
+      | virt a b v => exact hl.elim)
+
+end ValueExamples
+
 -- the tree 0 - {1 - {3}, 2}
 example : TreeWF [⟨0, none, [1, 2]⟩, ⟨1, some 0, [3]⟩, ⟨2, some 0, []⟩, ⟨3, some 1, []⟩] := by
   refine ⟨by decide, by decide, by decide, by decide, ⟨fun n => if n = 0 then 0 else if n = 3 then 2 else 1, by decide⟩⟩
